@@ -22,6 +22,7 @@ import posixpath
 import stat
 from collections.abc import Iterable, Iterator, Set
 
+from bzrformats.inventory import NoSuchId
 from dulwich.object_store import BaseObjectStore
 from dulwich.objects import ZERO_SHA, Blob, Commit, ObjectID, Tree, sha_to_hex
 from dulwich.pack import Pack, PackData, UnpackedObject, pack_objects_to_data
@@ -330,6 +331,12 @@ def _tree_to_objects(
             if p is None:
                 continue
             dirty_dirs.add(osutils.dirname(p))
+        if change.path[0] is not None and change.parent_id[0] is not None:
+            # The directory the entry used to live in may itself have been
+            # renamed in this revision: it lost a child, so its tree object
+            # changes, but dirname(old path) no longer names it.
+            with contextlib.suppress(NoSuchId):
+                dirty_dirs.add(tree.id2path(change.parent_id[0]))
 
     # Fetch contents of the blobs that were changed
     for (path, file_id), chunks in tree.iter_files_bytes(
